@@ -18,13 +18,16 @@ import json
 import pickle
 
 PROPERTY = "C06"
-LEVEL_TEXT = ("Lean theorems over Model/Ack.lean (ReliableSender send/ack/maybe_retry; Listener._recv_one always-ack + accept-unseen; "
+LEVEL_TEXT = ("Lean theorems over Model/Ack.lean (ReliableSender send/ack/maybe_retry; BOTH wire shapes of an acknowledged message - Syn + "
+              "message as ReliableSender.send frames it, Syn + header + value as comms.send_data frames a DatasetTransmitPayload -; "
+              "Listener._recv_one always-ack + accept-unseen; "
               "recv_messages batches; the loop body taking messages one by one, Bridge.recv_events staging Events until it returns, "
               "abandoned iterations; per-endpoint clocks, any number of endpoints, adversarial network that drops, duplicates, delays and "
               "reorders data frames and acknowledgements) and Model/Frames.lean (frame-sequence parser). For EVERY history, any interleaving: "
               "LISTENER level - no Syn accepted twice, an accepted message is the one handed to send under that idx, every sent message is in "
               "flight or accepted, in-flight entries disappear only when the loop body feeds the matching Ack, an Ack exists only after "
-              "acceptance. APPLICATION level - over handed-over / waiting / discarded no Syn occurs twice and every accepted message is in "
+              "acceptance; recording the Syn and dropping a second copy do not depend on the frame shape (c06_dedup_shape_independent, "
+              "c06_collect_records_syn, c06_second_copy_dropped in ANY state; c06_payload_exactly_once_listener over histories). APPLICATION level - over handed-over / waiting / discarded no Syn occurs twice and every accepted message is in "
               "exactly one of the three (c06_app_at_most_once, c06_app_accounted); nothing is discarded except by an abandoned iteration; an "
               "iteration that is not abandoned hands everything over; exactly-once at application level is PARTIAL (destination never "
               "abandons an iteration) with c06_app_exactly_once_full_fails as witness (the Listener acknowledges before the application is "
@@ -49,13 +52,18 @@ TECHNIQUE = ("Lean 4 proof: 17-conjunct invariant + induction over the step list
              "correspondence with the real classes over a fake network, loop bodies observed message by message")
 LEAN_PROPS = ["EkwVerif.Props.C06"]
 LEAN_DRIVERS = ["C06"]
-RULE = ("random histories over 2-4 endpoints (real Bridge / Executor shells or bare Listener+ReliableSender pairs, both directions): sends, "
+RULE = ("random histories over 2-4 endpoints (real Bridge / Executor shells or bare Listener+ReliableSender pairs, both directions): sends "
+        "of regular messages and of DatasetTransmitPayloads (data path: from the bare endpoint that plays a data server to the controller = fetch, "
+        "between bare endpoints = host-to-host transmit; framed as Syn + header + value by the real comms.send_data, so a duplicated or re-sent "
+        "payload takes the three-frame path of _recv_one), "
         "local un-acknowledged callbacks, per-packet drop / duplicate / out-of-order delivery of data frames and Acks, clock ticks around "
         "the resend grace, loop iterations (or single _recv_one / maybe_retry calls on bare endpoints), host removal; in 30% of the histories "
         "malformed frame lists (legal shapes damaged, Syn frames naming live endpoints) injected into receive queues; in 40% application-level "
         "failures (dead worker, TaskFailure reports, unexpected message types, early ExecutorShutdown, Bridge.shutdown); 20% run with the real "
         "budget of 20 retries; every history ends with max_retries+2 timer rounds under a fair or black-holing network. Plus the deterministic "
-        "witnesses of every known finding, and random frame lists around the legal shapes for _recv_one in isolation (non-trivial = rejected "
+        "witnesses of every known finding, six deterministic payload histories (payload duplicated by the network towards the real Bridge - one "
+        "batch / two batches -, re-sent after a lost Ack, re-sent with the Ack late, three copies at a bare data-server Listener read by single "
+        "_recv_one calls, payloads in both directions under equal Syn indices), and random frame lists around the legal shapes for _recv_one in isolation (non-trivial = rejected "
         "or swallowed as duplicate). non-trivial history = at least one dropped or duplicated packet and at least one retransmission, or an "
         "abandoned iteration; distinct by content hash. oracle_violations counts the replays of the known findings too")
 ASSUMPTIONS = [
@@ -64,10 +72,13 @@ ASSUMPTIONS = [
     "hosts are added to a ReliableSender only at construction (Bridge registration / Executor.__init__); they may be removed later",
     "deadline theorems: the clock of an endpoint advances only while it is blocked in its poll (work per iteration enters as `slack`)",
     "clock readings are multiples of 1 ms; each endpoint has its own clock",
+    "payload traffic: the acknowledged sender of a payload is the real ReliableSender whose PUSH socket hands a pickled DatasetTransmitPayload to the real "
+    "comms.send_data (the data server's own 4 s re-send rule around send_data is C07's Model/Transfer.lean); message ids from 1000000 on are payloads (Model/Ack.lean shapeOf)",
     "worker processes, shm server and data server of the Executor shell are stubs; max_retries_per_message is patched to 1-3 in 80% of the histories (20 in the rest)",
 ]
 
 GRACE_MS = 800
+DATA_BASE = 1000000      # Model/Ack.lean `dataBase`: message ids from here on are DatasetTransmitPayloads (three-frame shape)
 
 
 # ----------------------------------------------------------------------------- modules
@@ -374,6 +385,18 @@ def mk_msg(sim, cls, uid, a, dst=None):
         m = msg.TaskFailure(worker=WorkerId("h77", "w0"), task=f"t{uid}", detail="boom")
     elif cls == "shutdown":
         m = msg.ExecutorShutdown()
+    elif cls == "payload":
+        # a DatasetTransmitPayload as a data server sends it for a transmit / fetch: on the wire Syn + header + value
+        # (comms.send_data). Model id DATA_BASE + uid (Model/Ack.lean `shapeOf`); header and value are interned under
+        # the same id, so wire and parsed forms read [hdr id, msg id] / [payload, id, [msg, id]] on both sides
+        mid = DATA_BASE + uid
+        inner = msg.DatasetPurge(ds=DatasetId("m", str(mid)))
+        sim.msgids[repr(inner)] = mid
+        hdr = msg.DatasetTransmitPayloadHeader(confirm_address=sim.addr(a), confirm_idx=uid, ds=DatasetId("t", f"d{uid}"), deser_fun="f")
+        sim.hdrids[repr(hdr)] = mid
+        m = msg.DatasetTransmitPayload(header=hdr, value=pickle.dumps(inner))
+        sim.msgids[repr(m)] = mid
+        return m
     else:
         raise ValueError(cls)
     if cls != "shutdown":
@@ -444,7 +467,10 @@ class RealRun:
         try:
             first = pickle.loads(frames[0])
             if isinstance(first, msg.Syn) and len(frames) > 1:
-                self.trace.append(("tx", self.sim.addr_id(first.addr), repr(pickle.loads(frames[1])), first.idx))
+                body = pickle.loads(frames[1])
+                if isinstance(body, msg.DatasetTransmitPayloadHeader) and len(frames) == 3:
+                    body = msg.DatasetTransmitPayload(header=body, value=frames[2])     # the payload path: Syn + header + value
+                self.trace.append(("tx", self.sim.addr_id(first.addr), repr(body), first.idx))
             elif isinstance(first, msg.Ack) and len(frames) == 1:
                 self.trace.append(("acktx", by, self.sim.addr_id(dst_addr), first.idx, self.opno))
         except Exception:  # noqa: BLE001
@@ -606,16 +632,22 @@ class RealRun:
         e.iter_loop = e.loop
         if e.kind == "bare":
             # the harness' own loop over a bare endpoint: recv_messages, dispatch, maybe_retry
+            reached_retry = False
             try:
                 for m in e.listener.recv_messages(0):
                     if isinstance(m, sim.msg.Ack):
                         e.sender.ack(m.idx)
+                reached_retry = True
                 e.sender.maybe_retry()
             except Exception:  # noqa: BLE001 - like the real loops: any exception ends the iteration
                 pass
             if sum(len(x) for x in e.pending()):
                 e.abandon(self._cause(e, True), e.loop)
-            self._round(e)
+            if reached_retry:
+                # an opportunity for the sender to retransmit = an iteration of THIS (the harness' own) loop that got as far as
+                # its maybe_retry call; one that a malformed frame list ended inside recv_messages is none (the real loops die
+                # of it; this one goes on, and must not be charged with a retry it never attempted)
+                self._round(e)
             self._events(e)
             return ({"op": "poll", "ep": a, "acts": list(e.acts)}, e.digest(w0))
         # real loop in a coroutine thread, one iteration
@@ -704,7 +736,8 @@ def oracle(case, trace, final):
                 return ({"kind": "wrong-message"}, f"the application of endpoint {b} was handed {key}, which nobody sent to it")
             if handled[(b, key)] > allowed:
                 return ({"kind": "duplicate-delivery"},
-                        f"the application of endpoint {b} was handed {key} {handled[(b, key)]} times, sent {allowed} times")
+                        f"the application of endpoint {b} was handed {key if len(key) < 220 else key[:200] + '...'} "
+                        f"{handled[(b, key)]} times, sent {allowed} times")
         elif k == "tx":
             _, a, key, idx = ev
             tx[(a, key)] = tx.get((a, key), 0) + 1
@@ -834,7 +867,7 @@ def gen_case(rng, tier_big=False):
     else:
         nx = rng.choice([1, 1, 2])
         k0 = "bridge" if rng.random() < 0.75 else "bare"
-        data = rng.random() < 0.3
+        data = rng.random() < 0.4
         hosts0 = []
         for i in range(1, nx + 1):
             hosts0.append([f"h{i}", i])
@@ -849,6 +882,9 @@ def gen_case(rng, tier_big=False):
     n = len(eps)
     ops = []
     uid = [0]
+    # the data path: in the bridge-style systems the last endpoint (when `data`) plays the data server of h1; its
+    # traffic to the controller is DatasetTransmitPayloads (fetch), which travel as Syn + header + value
+    data_ep = n - 1 if (style >= 0.35 and data) else None
 
     def fresh():
         uid[0] += 1
@@ -863,7 +899,7 @@ def gen_case(rng, tier_big=False):
         if rng.random() < 0.04:
             host = "h9" if e["kind"] != "executor" else host   # unknown host -> KeyError
         if style < 0.35:
-            cls = rng.choice(["pub", "purge"])
+            cls = rng.choice(["pub", "purge", "payload"])
         elif a == 0:
             if host.startswith("data."):
                 cls = "cmd"
@@ -873,6 +909,8 @@ def gen_case(rng, tier_big=False):
                 cls = rng.choice(["purge", "seq"])
         else:
             cls = "pub"
+            if e["kind"] == "bare" and rng.random() < (0.85 if a == data_ep else 0.3):
+                cls = "payload"
         return {"op": "send", "ep": a, "host": host, "cls": cls, "m": fresh()}
 
     nops = rng.randint(4, 24 if maxr == 20 else (60 if tier_big else 34))
@@ -999,6 +1037,62 @@ def witness_cases():
                    {"op": "send", "ep": 1, "host": "controller", "cls": "pub", "m": 4}, {"op": "flush", "drop_to": [0]}]
            + rounds(1, 1001)}
     return [w1, w2, w3, w4, w5, w6, w7, w8, w9, w10, w11]
+
+
+def payload_cases():
+    """deterministic histories of the DATA path (run on every seed, expected clean): a DatasetTransmitPayload
+    (Syn + header + value, framed by the real comms.send_data) reaches the same Listener more than once - the network
+    duplicates the frames, or the Ack is lost / late and the source re-sends - while the receiving application is
+    the real Bridge.recv_events (a fetch), a bare controller, or a bare endpoint standing for a target data server
+    (host-to-host transmit); regular two-frame traffic is interleaved under neighbouring Syn indices."""
+    maxr = 3
+    ctrl = {"kind": "bridge", "grace": GRACE_MS, "hosts": [["h1", 1], ["data.h1", 2]]}
+    ex = {"kind": "executor", "grace": GRACE_MS, "hosts": [["controller", 0]]}
+    dl = {"kind": "bare", "grace": GRACE_MS, "hosts": [["controller", 0]]}
+    bare_ctrl = {"kind": "bare", "grace": GRACE_MS, "hosts": [["h1", 1], ["data.h1", 2]]}
+    bx = {"kind": "bare", "grace": GRACE_MS, "hosts": [["controller", 0]]}
+    pa = {"kind": "bare", "grace": GRACE_MS, "hosts": [["p1", 1]]}
+    pb = {"kind": "bare", "grace": GRACE_MS, "hosts": [["p0", 0]]}
+    pay = lambda ep, host, m: {"op": "send", "ep": ep, "host": host, "cls": "payload", "m": m}
+    fl = lambda *drop: {"op": "flush", "drop_to": list(drop)}
+    poll = lambda ep: {"op": "poll", "ep": ep}
+    tick = lambda ep, dt=GRACE_MS + 1: {"op": "tick", "ep": ep, "dt": dt}
+
+    def settle(eps_):
+        out = []
+        for _ in range(maxr + 2):
+            out += [tick(a) for a in eps_] + [fl()] + [poll(a) for a in eps_]
+        return out
+    cases = []
+    # the network duplicates the payload frames of a fetch; the controller is the real Bridge
+    cases.append({"name": "payload-duplicated-to-bridge", "eps": [ctrl, ex, dl],
+                  "ops": [pay(2, "controller", 1), {"op": "dup", "k": 0}, {"op": "deliver", "k": 0}, poll(0), poll(0), fl(), poll(2)]
+                  + settle([0, 2])})
+    # ... both copies in ONE recv_messages batch, a regular message of the executor in between
+    cases.append({"name": "payload-duplicated-one-batch", "eps": [ctrl, ex, dl],
+                  "ops": [pay(2, "controller", 1), {"op": "dup", "k": 0}, {"op": "local", "ep": 1, "cls": "pub", "m": 2}, poll(1),
+                          fl(), poll(0), poll(0), fl(), poll(2), poll(1)] + settle([0, 1, 2])})
+    # the Ack of the payload is lost: the source re-sends after its grace, the controller must not get it twice
+    cases.append({"name": "payload-resent-after-lost-ack", "eps": [ctrl, ex, dl],
+                  "ops": [pay(2, "controller", 1), fl(), poll(0), fl(2), tick(2), poll(2), fl(), poll(0), fl(), poll(2)]
+                  + settle([0, 2])})
+    # the Ack is late: the re-sent copy and the first Ack cross on the network
+    cases.append({"name": "payload-resent-late-ack", "eps": [bare_ctrl, bx, dl],
+                  "ops": [pay(2, "controller", 1), pay(2, "controller", 2), fl(), poll(0), tick(2), poll(2), fl(), poll(0), poll(2),
+                          fl(), poll(0), poll(2)] + settle([0, 2])})
+    # host-to-host transmit: the target's Listener (bare) gets the payload three times (dup + retransmission),
+    # single _recv_one calls
+    cases.append({"name": "payload-triple-to-data-server", "eps": [pa, pb],
+                  "ops": [pay(0, "p1", 1), {"op": "send", "ep": 0, "host": "p1", "cls": "purge", "m": 2}, {"op": "dup", "k": 0},
+                          tick(0), {"op": "retry", "ep": 0}, fl(), {"op": "recv", "ep": 1}, {"op": "recv", "ep": 1},
+                          {"op": "recv", "ep": 1}, {"op": "recv", "ep": 1}, {"op": "recv", "ep": 1}, fl(), poll(0)] + settle([0, 1])})
+    # payloads in both directions under the same Syn indices (idx 0 at both ends)
+    cases.append({"name": "payload-both-directions", "eps": [pa, pb],
+                  "ops": [pay(0, "p1", 1), pay(1, "p0", 2), {"op": "dup", "k": 1}, {"op": "dup", "k": 0}, fl(), poll(0), poll(1), poll(0),
+                          poll(1), fl(), poll(0), poll(1)] + settle([0, 1])})
+    for c in cases:
+        c["max"] = maxr
+    return cases
 
 
 # ----------------------------------------------------------------------------- frames (raw _recv_one)
@@ -1178,6 +1272,19 @@ def _stats(ctx, case, rr):
     ctx.count("messages_handed_to_application", sum(1 for t in rr.trace if t[0] == "handled"))
     ctx.count("sender_raised", sum(1 for t in rr.trace if t[0] == "raised"))
     ctx.count("max_retries=%d" % case["max"])
+    npay = sum(1 for t in rr.trace if t[0] == "sent" and "DatasetTransmitPayload" in t[3])
+    if npay:
+        ctx.count("payload_messages_sent", npay)
+        ctx.count("histories_with_payload_traffic")
+        ctx.count("payload_frames_on_wire", sum(1 for t in rr.trace if t[0] == "tx" and "DatasetTransmitPayload(" in t[2]))
+        ctx.count("payloads_handed_to_application", sum(1 for t in rr.trace if t[0] == "handled" and "DatasetTransmitPayload(" in t[2]))
+        ntx = {}
+        for t in rr.trace:
+            if t[0] == "tx" and "DatasetTransmitPayload(" in t[2]:
+                ntx[(t[1], t[3])] = ntx.get((t[1], t[3]), 0) + 1
+        ctx.count("payloads_retransmitted", sum(1 for v in ntx.values() if v > 1))
+        if n_dup and ntx:
+            ctx.count("histories_with_payload_traffic_and_network_duplicates")
     for t in rr.trace:
         if t[0] == "aborted":
             ctx.count("iteration-abandoned:" + t[2])
@@ -1238,6 +1345,7 @@ def _real_phase(ctx, with_model=True):
         if c.get("type", "history") == "history":
             cases.append(c)
     cases += witness_cases()
+    cases += payload_cases()
     for _ in range(nhist):
         cases.append(gen_case(ctx.rng, tier_big=not ctx.quick))
     material = []
